@@ -113,15 +113,20 @@ var c15Srcs = map[string]string{
 	"fail-nested-vars":   "a = \"leak-a\"\ns = \"leak-s\"\nw = \"leak-w\"\nn = 99\nadd_pattern(\"leakp\", \"x+\")\nif true {\n  for i = 0; i < 2; i = i + 1 {\n    q = 1 / (1 - i)\n  }\n}\np(\"unreachable\")\n",
 	"fail-in-use-branch": "x = \"caller-private\"\nok = \"stale-ok\"\nif true {\n  use(\"badrun.p\")\n}\n",
 	// the value of a call that returns nothing, used where a run-time error names the operand's type - before and after value-returning calls in the same run
-	"void-operand":   "x = drop_key(nosuchkey)\ny = x + 1\np(\"unreachable\")\n",
-	"void-iterable":  "for e in add_key(k9, 1) {\n  p(e)\n}\n",
-	"void-in":        "set_tag(k8, \"v\")\nz = 1 in rename(k7, k8)\np(z)\n",
-	"void-compound":  "x = 1\nx += cast(f1, \"int\")\np(x)\n",
-	"void-after-len": "n = len(\"abc\")\nx = drop_key(nosuchkey)\ny = x - n\n",
-	"void-unary":     "x = -set_tag(k6, \"v\")\np(x)\n",
-	"reader":         "p(a, s, w, n, x, ok, q, i, b)\nadd_key(seen_a, a)\nadd_key(seen_x, x)\n",
-	"reader-use":     "use(\"reader2.p\")\np(a, x)\n",
-	"reader2":        "p(a, s, w, n, x, ok)\n",
+	// a container without a JSON form (a non-finite float inside, a cycle) stored over a key that already holds a scalar of each type, and readers of such keys
+	"unenc-over-int":   "add_key(f1, [1, 1e308 * 10.0])\np(f1, f2, message)\n",
+	"unenc-over-str":   "c = [1]\nc[0] = c\nadd_key(message, c)\np(message, f1)\n",
+	"unenc-over-float": "add_key(fl, 2.5)\nadd_key(fl, {\"x\": 1e308 * 10.0})\nadd_key(bo, true)\nadd_key(bo, [1e308 * 10.0])\np(fl, bo)\n",
+	"scalar-readers":   "add_key(i2, 7)\nadd_key(s2, \"str\")\nadd_key(fl2, 0.5)\nadd_key(b2, false)\np(i2, s2, fl2, b2, f1, f2, message)\ncast(i2, \"str\")\np(get_key(i2), len(s2))\n",
+	"void-operand":     "x = drop_key(nosuchkey)\ny = x + 1\np(\"unreachable\")\n",
+	"void-iterable":    "for e in add_key(k9, 1) {\n  p(e)\n}\n",
+	"void-in":          "set_tag(k8, \"v\")\nz = 1 in rename(k7, k8)\np(z)\n",
+	"void-compound":    "x = 1\nx += cast(f1, \"int\")\np(x)\n",
+	"void-after-len":   "n = len(\"abc\")\nx = drop_key(nosuchkey)\ny = x - n\n",
+	"void-unary":       "x = -set_tag(k6, \"v\")\np(x)\n",
+	"reader":           "p(a, s, w, n, x, ok, q, i, b)\nadd_key(seen_a, a)\nadd_key(seen_x, x)\n",
+	"reader-use":       "use(\"reader2.p\")\np(a, x)\n",
+	"reader2":          "p(a, s, w, n, x, ok)\n",
 	// the same grok pattern text under different script-local alias definitions
 	"grok-alias-digits":  "add_pattern(\"tok\", \"[0-9]+\")\nif true {\n  ok = grok(_, \"%{tok:w}\")\n  p(ok, w)\n}\n",
 	"grok-alias-letters": "add_pattern(\"tok\", \"[a-z]+\")\nif true {\n  ok = grok(_, \"%{tok:w}\")\n  p(ok, w)\n}\n",
@@ -262,6 +267,9 @@ func c15Pool(seed int64) []c15Op {
 		"unenc-over-int", "unenc-over-str", "unenc-over-float", "scalar-readers", "scalar-readers",
 		"void-operand", "void-operand", "void-iterable", "void-in", "void-compound", "void-after-len", "void-unary"} {
 		name := name
+		if c15Srcs[name] == "" {
+			panic("c15: the pool names a script that has no source: " + name)
+		}
 		ops = append(ops, c15Op{"run:" + name, func(st *c15State) string { return c15RunV1(st, name, &drive.RunState{Budget: 20000}) }})
 	}
 	ops = append(ops, c15Op{"run:private-with", func(st *c15State) string {
